@@ -14,7 +14,7 @@ from psv.simk import _pslinux, psutil
 
 KEYS = ["Size", "KernelPageSize", "MMUPageSize", "Rss", "Pss", "Pss_Dirty", "Shared_Clean", "Shared_Dirty", "Private_Clean", "Private_Dirty",
         "Referenced", "Anonymous", "LazyFree", "AnonHugePages", "ShmemPmdMapped", "FilePmdMapped", "Shared_Hugetlb", "Private_Hugetlb", "Swap", "SwapPss", "Locked"]
-PATHS = [None, "/usr/lib/a b.so", "/x:y", "/l (deleted)", "[heap]", "/opt/two  blanks\tand a tab.so"]
+PATHS = [None, "/usr/lib/a b.so", "/x:y", "/l (deleted)", "[heap]", "/opt/two  blanks\tand a tab.so", "/opt/caf\udce9/lib\udcff.so"]
 F = ["Rss", "Size", "Pss", "Shared_Clean", "Shared_Dirty", "Private_Clean", "Private_Dirty", "Referenced", "Anonymous", "Swap"]
 PG = 4096
 
@@ -27,7 +27,7 @@ META = dict(
     ],
     stubs=["open() of /proc/<pid>/{statm,smaps,smaps_rollup}, /proc/meminfo", "os.stat answering a symbolic yes/no for the ' (deleted)' path"],
     bounds=dict(quick=dict(mappings="0..2", rollup=["present", "absent", "ENOENT", "ESRCH"]), thorough=dict(mappings="0..4", rollup=["present", "absent", "ENOENT", "ESRCH"])),
-    outside=["mapping paths with symbolic characters", "more than 4 mappings", "non-ASCII paths"],
+    outside=["mapping paths with symbolic characters (concrete witnesses: blanks, tab, colon, ' (deleted)', non-UTF-8 bytes)", "more than 4 mappings"],
     labels=["memory_info-pages-times-pagesize", "uss-pss-swap[present]", "uss-pss-swap[absent]", "uss-pss-swap[enoent]", "row-identity", "row-figures", "one-row-per-distinct-path", "grouped-sums",
             "memory_percent-formula", "memory_percent-invalid-ValueError"],
 )
